@@ -18,11 +18,14 @@ func clockOverlay(dir string) map[string]string {
 			continue
 		}
 		b, err := os.ReadFile(f)
-		if err != nil || !strings.Contains(string(b), "time.Now()") {
+		if err != nil || !(strings.Contains(string(b), "time.Now()") || strings.Contains(string(b), "rnd.Intn(")) {
 			continue
 		}
 		nf := filepath.Join(dir, "clock_"+filepath.Base(f))
-		os.WriteFile(nf, []byte(strings.ReplaceAll(string(b), "time.Now()", "vrtNow(time.Now)")), 0644)
+		txt := strings.ReplaceAll(string(b), "time.Now()", "vrtNow(time.Now)")
+		// random draws replay the values of the counterexample (in draw order)
+		txt = strings.ReplaceAll(txt, "rnd.Intn(", "vrtIntn(rnd, ")
+		os.WriteFile(nf, []byte(txt), 0644)
 		out[f] = nf
 	}
 	return out
